@@ -76,7 +76,7 @@ theorem finished_is_inert (sp : Spec) (w : World) (ev : Event) (hc : isCompleted
           · split
             · exact ⟨rfl, rfl⟩
             · split
-              · exact ⟨rfl, rfl⟩
+              · exact ⟨by unfold ids; rw [(checkAffected_tasks sp _ t).1], by rw [(checkAffected_tasks sp _ t).2]⟩
               · split
                 · exact ⟨rfl, rfl⟩
                 · exact ⟨by simp [ids, setTask_ids], rfl⟩
